@@ -503,6 +503,12 @@ func (s *safety) dischargePanicSite(p *Path, ix *pathIndex, e *Event, conds []Co
 				inner := stripCT(e.Args[0])
 				if inner.Args[2] == nil || hi != nil {
 					x, lo, hi = stripCT(fl.Args[0]), fl.Args[1], fl.Args[2]
+				} else if bb := ix.byID[stripCT(fl.Args[0]).ID]; bb != nil && fl.Args[1] != nil && fl.Args[2] != nil {
+					// v[lo:] of a view v = Bytes()[a:b]: valid when a+lo and b are boundaries of atoms appended before
+					// Bytes() was taken, in that order
+					if _, _, _, m, okw := ix.window(fl.Args[1], fl.Args[2], bb); okw && sameBuf(m.Buf, bb.Buf) && !consumedBetween(p, m, bb) {
+						return true, "bounds are boundaries of atoms appended to the same buffer before Bytes() was taken"
+					}
 				}
 			}
 		}
@@ -584,6 +590,22 @@ func (s *safety) dischargePanicSite(p *Path, ix *pathIndex, e *Event, conds []Co
 		x := stripCT(e.Args[0])
 		for x.Op == "tassert" && x.Name == "" && len(x.Args) == 1 {
 			x = stripCT(x.Args[0]) // an assertion on the result of an earlier (discharged) assertion of the same value
+		}
+		// the registry keeps a small record per name and hands out its one interface-typed field (the service itself)
+		if x.Op == "fieldval" && len(x.Args) == 1 && x.Type != nil && types.IsInterface(x.Type) {
+			if in := stripCT(x.Args[0]); in.Op == "lookup" && in.Type != nil {
+				if st, isS := in.Type.Underlying().(*types.Struct); isS {
+					n := 0
+					for i := 0; i < st.NumFields(); i++ {
+						if types.IsInterface(st.Field(i).Type()) {
+							n++
+						}
+					}
+					if n == 1 {
+						x = in
+					}
+				}
+			}
 		}
 		if x.Op == "lookup" && x.Args[1].IsConst() && s.a.isRegistryMap(x.Args[0]) && s.a.RegistryStartup {
 			name := strings.Trim(x.Args[1].C.ExactString(), "\"")
@@ -742,9 +764,15 @@ func (s *safety) checkNoPanic(rep *Report, prefix string, key string, fn *ssa.Fu
 			rep.Ob(prefix+"0-analysable", key, false, s.a.P.Pos(fn.Pos()), "path analysis gave up: "+p.Trunc)
 			continue
 		}
+		heldExcl := map[string]bool{} // mutexes this path holds exclusively at this point
 		walkWithConds(p, func(e *Event, conds []Cond, reps []*Event) {
 			epos := s.a.P.Pos(e.Pos)
 			site := siteKey(e)
+			if len(heldExcl) > 0 && (e.Kind == EvObj || e.Kind == EvCalc || e.Kind == EvCall || e.Kind == EvGo) {
+				// while a mutex is held exclusively nothing may run that could come back for it (a nested codec, a
+				// service, unknown code): the goroutine would wait for itself
+				rep.Ob(prefix+"4-locks", key+":held-across:"+e.Kind.String(), false, epos, "codec path runs "+e.String()+" while holding a mutex exclusively (re-entry would block for ever)")
+			}
 			switch e.Kind {
 			case EvPanicSite:
 				ok, why := s.dischargePanicSite(p, ix, e, conds)
@@ -789,8 +817,21 @@ func (s *safety) checkNoPanic(rep *Report, prefix string, key string, fn *ssa.Fu
 			case EvGo:
 				rep.Ob(prefix+"4-no-concurrency", key+":"+e.Mode, false, epos, "codec path uses "+e.Mode)
 			case EvLock:
-				// only the registry's read lock is expected on codec paths
-				rep.Ob(prefix+"4-locks", key+":"+e.Mode, e.Mode == "RLock" || e.Mode == "RUnlock", epos, "codec path takes "+e.Mode+" on "+e.Recv.Pretty())
+				// the registry's read lock, or a short exclusive section (a registry guarded by a plain Mutex): acquired once,
+				// released on this path, nothing but the look-up in between
+				okLock := e.Mode == "RLock" || e.Mode == "RUnlock"
+				if e.Recv != nil {
+					k := e.Recv.Key()
+					switch e.Mode {
+					case "Lock":
+						okLock = !heldExcl[k]
+						heldExcl[k] = true
+					case "Unlock":
+						okLock = heldExcl[k]
+						delete(heldExcl, k)
+					}
+				}
+				rep.Ob(prefix+"4-locks", key+":"+e.Mode, okLock, epos, "codec path takes "+e.Mode+" on "+e.Recv.Pretty()+" outside the acquire-once / release-on-this-path discipline")
 			case EvRep:
 				bounded := e.Bounded == "counted" || e.Bounded == "range" || e.Bounded == "counted-down" || e.Bounded == "bulk"
 				if e.Bounded == "shrinking" {
